@@ -24,6 +24,8 @@ from __future__ import annotations
 import itertools
 from fractions import Fraction
 
+import os
+
 import numpy as np
 import z3
 
@@ -76,6 +78,7 @@ def jobs(tier, seed):
         for m in (('central', 'forward') if cls != 'Limit' else ('above', 'below')):
             out.append(('reuse-%s-%s' % (cls, m), dict(kind='reuse_cls', m1=m, m2=cls)))
     out.append(('genstate-cstep', dict(kind='cgen', m1='', m2='')))
+    out.append(('others-before-fresh-interpreter', dict(kind='fresh', m1='', m2='')))
     return out
 
 
@@ -92,6 +95,11 @@ def run_job(job, kind, m1, m2):
         return cgen(job)
     if kind == 'reuse2':
         return reuse2(job, m1)
+    if kind == 'fresh':
+        bad, n = fresh_interpreter_failures()
+        if not job.confirm('%d results are the same in a pristine interpreter and after other objects were used (concrete, bit for bit)' % n, not bad):
+            job.violation('fresh', dict(key='C09:result-depends-on-other-objects', kind='fresh', detail=bad[0]))
+        return
     return reuse(job, m1)
 
 
@@ -368,6 +376,22 @@ def reuse(job, method):
                               dict(key='C09:reuse:%s:result-depends-on-history' % method, kind='reuse', method=method, what=what))
 
 
+def fresh_interpreter_failures():
+    """CONCRETE witness (not solver evidence), see vf/props/c09_fresh.py: run in a new interpreter so that the reference values
+    are taken before any other numdifftools object existed"""
+    import json
+    import subprocess
+    import sys
+    from .. import core
+    env = dict(os.environ)
+    r = subprocess.run([sys.executable, '-m', 'vf.props.c09_fresh'], cwd=core.VERIF, env=env, capture_output=True, text=True, timeout=300)
+    line = [ln for ln in r.stdout.splitlines() if ln.startswith('{')]
+    if r.returncode != 0 or not line:
+        raise RuntimeError('fresh-interpreter run failed: %s' % (r.stderr[-400:],))
+    out = json.loads(line[-1])
+    return out['bad'], out['targets']
+
+
 REUSE2 = (('n=0 called, n restored', dict(n=0), dict(n=1)), ('order=4 called, order restored', dict(order=4), dict(order=2)),
           ('n=3 called, n restored', dict(n=3), dict(n=1)), ('n=2 called and kept', dict(n=2), dict()))
 
@@ -584,6 +608,9 @@ def replay(cex):
                     return True, '%s reused after (x=%r, n=%d, order=%d) yields %r for (x=%r, %s, n=%d, order=%d); a fresh generator yields %r' % (
                         cls.__name__, xp, npv, opv, a[:3], x, method, n, o, b[:3])
         return False, 'reused generator == fresh generator on the probes'
+    if kind == 'fresh':
+        bad, _n = fresh_interpreter_failures()
+        return (True, bad[0]) if bad else (False, 'results do not depend on other objects')
     if kind == 'reuse2':
         method = cex['config']['m1']
         rng = np.random.default_rng(9)
